@@ -9,12 +9,15 @@ use crate::render::{render, BarSetup, RenderErr};
 use crate::runner::*;
 
 /// custom keys registered by the harness and their fixed expansions
-pub const CUSTOM: [(&str, &str); 5] = [
+pub const CUSTOM: [(&str, &str); 7] = [
     ("k", "V"),
     ("kk", "hello world"),
     ("key_1", ""),
     ("x.y", "0123456789"),
     ("ключ", "ok"),
+    // fewer columns than bytes / more columns than characters (SGR content is C12's subject)
+    ("acc", "\u{e9}\u{e9}"),
+    ("cjk", "\u{4e16}\u{754c}x"),
 ];
 /// built-ins whose output does not depend on time: (key, expansion for the BarSetup default)
 pub const BUILTIN: [(&str, &str); 4] = [("msg", "Msg"), ("prefix", "Pre"), ("pos", "7"), ("len", "42")];
